@@ -49,6 +49,8 @@ def run(ctx, bt):
     from .. import gen_engine as _G
     run_engine_protocol(ctx, bt, ctx.scale(25, 400), [Monitor(ctx)], FOOT_FIELDS, None, spec_kwargs={"fi_tree": True},
                         spec_mutator=_G.carry_open_close, corr_name="step[C02]:carry-open-close")
+    run_engine_protocol(ctx, bt, ctx.scale(30, 400), [Monitor(ctx)], FOOT_FIELDS, None,
+                        spec_mutator=_G.zero_spell_hold, corr_name="step[C02]:hold-through-zero-price-spells")
     run_engine_protocol(ctx, bt, ctx.scale(110, 1200), [Monitor(ctx)], FOOT_FIELDS, None, corr_name="step[C02]")
     run_programs(ctx, bt, ctx.scale(90, 1500), check_program)
     from ..runs_run import run_steps_protocol
